@@ -80,6 +80,13 @@ type Stats struct {
 	// LRDroppedErrs counts, by message, the errors that an invocation of a left-recursive rule
 	// dropped (final non-extending growth attempt, invocation failing outright).
 	LRDroppedErrs map[string]int
+	// LRHandlerSwitch: a left-recursive rule was invoked again at an offset under another stack
+	// of recovery handlers than before, and an invocation evaluated a throw; LRInvertSwitch:
+	// invoked again at an offset inside another parity of ! nesting than before. In both cases
+	// a result remembered from the earlier invocation is not what the definition gives
+	// (recorded finding KF-C14-LRMEMO / KF-C12-LRMEMO).
+	LRHandlerSwitch int
+	LRInvertSwitch  int
 }
 
 // Result of a reference evaluation.
@@ -155,8 +162,15 @@ type interp struct {
 
 	// left recursion by denotation
 	lrSeed map[string]*lrSeed
+	lrCtx  map[string]*lrCtx // rule@offset -> context of the earlier invocations
 
 	st Stats
+}
+
+type lrCtx struct {
+	handlers string
+	invert   bool
+	threw    bool
 }
 
 type lrSeed struct {
@@ -496,9 +510,38 @@ func (it *interp) lrRule(r *gspec.Rule, off int) (any, int, bool) {
 		}
 		return s.val, s.end, true
 	}
-	it.st.LRCalls[r.Name+"@"+strconv.Itoa(off)]++
+	key := r.Name + "@" + strconv.Itoa(off)
+	it.st.LRCalls[key]++
 	saved := it.lrSeed[r.Name]
 	defer func() { it.lrSeed[r.Name] = saved }()
+	{
+		// the context of this invocation against the context of the earlier ones at this offset
+		var sig strings.Builder
+		for _, h := range it.handlers {
+			fmt.Fprintf(&sig, "%p%v;", h.rec, h.labels)
+		}
+		throws0 := it.st.Throws
+		prev := it.lrCtx[key]
+		if it.lrCtx == nil {
+			it.lrCtx = map[string]*lrCtx{}
+		}
+		cur := &lrCtx{handlers: sig.String(), invert: it.invert}
+		if prev == nil {
+			it.lrCtx[key] = cur
+		}
+		defer func() {
+			cur.threw = it.st.Throws > throws0
+			if prev != nil {
+				if prev.handlers != cur.handlers && (prev.threw || cur.threw) {
+					it.st.LRHandlerSwitch++
+				}
+				if prev.invert != cur.invert {
+					it.st.LRInvertSwitch++
+				}
+				prev.threw = prev.threw || cur.threw
+			}
+		}()
+	}
 
 	alts := r.Expr.Sub
 
